@@ -2,7 +2,11 @@
 from checks_common import three
 
 CHECK = {
-    "runs": three("c07_executor", [], scales=(0.5, 0.5, 1.0)),
+    "runs": three("c07_executor", [], scales=(0.5, 0.5, 1.0)) +
+            # sustained local spawning against a continuously sweeping balance thread (own processes); added after
+            # the seeded change C07-a2 escaped the general episodes
+            three("c07_executor", [], scales=(0.25, 0.25, 1.0), mode="storm"),
+    "parallel": 6,
     "design_ref": "DESIGN.md §5 C07",
     "technique": "seeded episodes over ThreadPoolExecutor configurations (workers, global/local capacity, stealing, "
                  "balance thread) with external submitter threads and tasks spawning children from inside workers, "
